@@ -737,27 +737,29 @@ func nrListed(entries []*m.S, n int) int {
 //@   loop 1 use-entry lemmaDivMul(wt.nowWraps+1, 0, nrSegs)
 //@   loop 1 invariant nr <= nowNr+1 || nr == se.startNr+1
 //@   loop 1 invariant loopTicks: int(wrapDur) == wrapDurOf(a, rep) && relNowTime < wrapDur && nowNr == wt.nowWraps*nrSegs + relNowIdx && 0 <= relNowIdx && relNowIdx < nrSegs && wt.nowWraps >= 0
-//@   loop 1 invariant inLoopNoRoll: specRelNow(rep, old(wt), atoMS) < int(wrapDur) && relNowTime >= segs[0].EndTime ==> specNowTicks(a, rep, old(wt), atoMS) == wt.nowWraps*int(wrapDur) + int(relNowTime)
+//@   loop 1 invariant inLoop: relNowTime >= segs[0].EndTime ==> specNowTicks(a, rep, old(wt), atoMS) == wt.nowWraps*int(wrapDur) + int(relNowTime)
 //@   loop 1 invariant inLoopIdx: relNowTime >= segs[0].EndTime ==> segs[relNowIdx].EndTime <= relNowTime && (relNowIdx+1 < nrSegs ==> segs[relNowIdx+1].EndTime > relNowTime)
-//@   loop 1 invariant prevLoopNoRoll: specRelNow(rep, old(wt), atoMS) < int(wrapDur) && relNowTime < segs[0].EndTime ==> specNowTicks(a, rep, old(wt), atoMS) == (wt.nowWraps+1)*int(wrapDur) + int(relNowTime) && relNowIdx == nrSegs-1
+//@   loop 1 invariant prevLoop: relNowTime < segs[0].EndTime ==> specNowTicks(a, rep, old(wt), atoMS) == (wt.nowWraps+1)*int(wrapDur) + int(relNowTime) && relNowIdx == nrSegs-1
 //@   store wt.nowWraps += requires nowLoopsFromNowRemainder: wt.nowWraps == old(wt).nowWraps + int(relNowTime / wrapDur) && relNowTime == uint64(old(wt).nowRelMS*rep.MediaTimescale/1000) + ato
 //@   store wt.startWraps += requires startLoopsFromStartRemainder: wt.startWraps == old(wt).startWraps + int(relStartTime / wrapDur) && relStartTime == uint64(old(wt).startRelMS*rep.MediaTimescale/1000) + ato
 //@   store relNowTime %= requires nowRemainderReduced: relNowTime < wrapDur
+//@   store relNowTime %= requires rolledInstantUnchanged: specNowTicks(a, rep, old(wt), atoMS) == wt.nowWraps*int(wrapDur) + int(relNowTime)
+//@   store relNowIdx := requires instantSplit: specNowTicks(a, rep, old(wt), atoMS) == wt.nowWraps*int(wrapDur) + int(relNowTime) && relNowTime < wrapDur
 //@   store relNowIdx = requires lastFinishedOrWrap: relNowIdx == nrSegs-1 || (relNowIdx >= -1 && relNowIdx < nrSegs && (relNowIdx >= 0 ==> segs[relNowIdx].EndTime <= relNowTime) && (relNowIdx+1 < nrSegs ==> segs[relNowIdx+1].EndTime > relNowTime))
 //@   exit 2 requires edgeNr: lsi.nr == max(se.startNr, nowNr)
-//@   exit 2 requires edgeHasEnded: segs[0].StartTime == 0 && specRelNow(rep, old(wt), atoMS) < int(wrapDur) ==> specEnd(a, rep, nowNr) <= specNowTicks(a, rep, old(wt), atoMS)
+//@   exit 2 requires edgeHasEnded: segs[0].StartTime == 0 ==> specEnd(a, rep, nowNr) <= specNowTicks(a, rep, old(wt), atoMS)
 //@   loop 1 invariant nextNr: relNowIdx+1 == nrSegs ==> nowNr+1 == (wt.nowWraps+1)*nrSegs+0
 //@   loop 1 invariant nextInLoop: relNowIdx+1 < nrSegs ==> (nowNr+1)/len(rep.Segments) == wt.nowWraps && (nowNr+1)%len(rep.Segments) == relNowIdx+1
 //@   loop 1 invariant nextAfterWrap: relNowIdx+1 == nrSegs ==> (nowNr+1)/len(rep.Segments) == wt.nowWraps+1 && (nowNr+1)%len(rep.Segments) == 0
-//@   exit 2 requires nowTicksIs: specRelNow(rep, old(wt), atoMS) < int(wrapDur) ==> (relNowTime >= segs[0].EndTime ==> specNowTicks(a, rep, old(wt), atoMS) == wt.nowWraps*int(wrapDur) + int(relNowTime)) && (relNowTime < segs[0].EndTime ==> specNowTicks(a, rep, old(wt), atoMS) == (wt.nowWraps+1)*int(wrapDur) + int(relNowTime))
+//@   exit 2 requires nowTicksIs: (relNowTime >= segs[0].EndTime ==> specNowTicks(a, rep, old(wt), atoMS) == wt.nowWraps*int(wrapDur) + int(relNowTime)) && (relNowTime < segs[0].EndTime ==> specNowTicks(a, rep, old(wt), atoMS) == (wt.nowWraps+1)*int(wrapDur) + int(relNowTime))
 //@   exit 2 requires nextInLoopNr: relNowIdx+1 < nrSegs ==> (nowNr+1)/len(rep.Segments) == wt.nowWraps && (nowNr+1)%len(rep.Segments) == relNowIdx+1
 //@   exit 2 requires nextInLoopEnd: relNowIdx+1 < nrSegs ==> specEnd(a, rep, nowNr+1) == int(rep.Segments[(nowNr+1)%len(rep.Segments)].EndTime) + wt.nowWraps*int(wrapDur)
 //@   exit 2 requires nextInLoopSeg: relNowIdx+1 < nrSegs ==> rep.Segments[(nowNr+1)%len(rep.Segments)].EndTime == segs[relNowIdx+1].EndTime
-//@   exit 2 requires nextInLoopHasNotEnded: segs[0].StartTime == 0 && specRelNow(rep, old(wt), atoMS) < int(wrapDur) && relNowIdx+1 < nrSegs ==> specNowTicks(a, rep, old(wt), atoMS) < specEnd(a, rep, nowNr+1)
+//@   exit 2 requires nextInLoopHasNotEnded: segs[0].StartTime == 0 && relNowIdx+1 < nrSegs ==> specNowTicks(a, rep, old(wt), atoMS) < specEnd(a, rep, nowNr+1)
 //@   exit 2 requires nextAfterWrapNr: relNowIdx+1 == nrSegs ==> (nowNr+1)/len(rep.Segments) == wt.nowWraps+1 && (nowNr+1)%len(rep.Segments) == 0
 //@   exit 2 requires nextAfterWrapEnd: relNowIdx+1 == nrSegs ==> specEnd(a, rep, nowNr+1) == int(segs[0].EndTime) + (wt.nowWraps+1)*int(wrapDur)
-//@   exit 2 requires nextAfterWrapHasNotEnded: segs[0].StartTime == 0 && specRelNow(rep, old(wt), atoMS) < int(wrapDur) && relNowIdx+1 == nrSegs ==> specNowTicks(a, rep, old(wt), atoMS) < specEnd(a, rep, nowNr+1)
-//@   exit 1 requires noneEnded: segs[0].StartTime == 0 && specRelNow(rep, old(wt), atoMS) < int(wrapDur) ==> specNowTicks(a, rep, old(wt), atoMS) < specEnd(a, rep, 0)
+//@   exit 2 requires nextAfterWrapHasNotEnded: segs[0].StartTime == 0 && relNowIdx+1 == nrSegs ==> specNowTicks(a, rep, old(wt), atoMS) < specEnd(a, rep, nowNr+1)
+//@   exit 1 requires noneEnded: segs[0].StartTime == 0 ==> specNowTicks(a, rep, old(wt), atoMS) < specEnd(a, rep, 0)
 //@   loop 1 use-entry lemmaWrapDurIsRepDur(a, rep)
 //@   loop 1 use lemmaGapFree(a, rep, nr-1)
 //@   loop 1 invariant lsi.nr == nr-1 && lsi.startTime == uint64(specStart(a, rep, nr-1)) && lsi.dur == specDur(rep, nr-1) && d == lsi.dur && lsi.timescale == uint64(rep.MediaTimescale)
